@@ -1116,7 +1116,7 @@ pub mod verif_hooks {
     pub struct Kernel {
         protocol: RequestResponseProtocol,
         event_rx: Receiver<InnerRequestResponseEvent>,
-        commands: Vec<Receiver<ProtocolCommand>>,
+        commands: Vec<(ConnectionId, Receiver<ProtocolCommand>)>,
     }
 
     /// Outcome reported to the user for a request id.
@@ -1180,7 +1180,7 @@ pub mod verif_hooks {
     /// A connection with `peer` is reported to the protocol (transport service first, then the protocol handler).
     pub fn connection_established(kernel: &mut Kernel, peer: PeerId, connection_id: ConnectionId) -> bool {
         let (tx, rx) = tokio::sync::mpsc::channel(16);
-        kernel.commands.push(rx);
+        kernel.commands.push((connection_id, rx));
         let endpoint = Endpoint::listener(multiaddr::Multiaddr::empty(), connection_id);
         let handle = ConnectionHandle::new(connection_id, tx);
         match crate::protocol::transport_service::verif_hooks::on_connection_established(&mut kernel.protocol.service, peer, endpoint, connection_id, handle) {
@@ -1190,6 +1190,8 @@ pub mod verif_hooks {
     }
 
     pub fn connection_closed(kernel: &mut Kernel, peer: PeerId, connection_id: ConnectionId) {
+        // the connection task is gone: commands it had not served are dropped with it
+        kernel.commands.retain(|(id, _)| *id != connection_id);
         if crate::protocol::transport_service::verif_hooks::on_connection_closed(&mut kernel.protocol.service, peer, connection_id) {
             let _ = run(kernel.protocol.on_connection_closed(peer));
         }
@@ -1201,7 +1203,7 @@ pub mod verif_hooks {
 
     /// The oldest substream-open command issued towards any connection fails.
     pub fn substream_open_failure(kernel: &mut Kernel) -> bool {
-        for rx in kernel.commands.iter_mut() {
+        for (_, rx) in kernel.commands.iter_mut() {
             if let Ok(ProtocolCommand::OpenSubstream { substream_id, .. }) = rx.try_recv() {
                 return run(kernel.protocol.on_substream_open_failure(substream_id, SubstreamError::ConnectionClosed)).map_or(false, |r| r.is_ok());
             }
